@@ -198,7 +198,7 @@ def prepare_module(rng, mod, p_tag=0.35):
     def fix_defaults(t):
         if t['k'] in ('SEQUENCE', 'SET'):
             for m in members_of(t):
-                if m['opt'] not in (None, 'optional') and m['t']['k'] == 'REF':
+                if m['opt'] not in (None, 'optional') and m['t']['k'] == 'REF' and rng.random() < .5:
                     m['opt'] = 'optional'
     for _, t in mod['types']:
         walk_types(t, fix_defaults)
@@ -316,6 +316,33 @@ def corner_modules():
                  ('T0', {'nb': (b'', 0), 'b': (b'', 0), 'o': bytes(range(200)), 'u': '', 'so': []}),
                  ('T0', {'nb': (b'\x00\x10', 13), 'b': (b'\x00', 1), 'o': bytes(256), 'u': 'x' * 130,
                          'so': [bytes(130), bytes(129), b'\x00']})]))
+    # DEFAULT components under every tagging form (untagged, IMPLICIT, EXPLICIT, through a reference) holding the
+    # default value written differently (named bits with trailing zero bits) and values next to the default:
+    # DER omits exactly the components whose abstract value is the default
+    NB = {'k': 'REF', 'name': 'T1'}
+    dflt = ('default', (b'\x40', 2))
+    dseq = {'k': 'SEQUENCE', 'root': [_m('i', INT),
+                                      _m('u', dict(NBITS, named=[('read', 0), ('write', 1), ('z', 9)]), dflt),
+                                      _m('im', dict(NBITS, named=[('read', 0), ('write', 1), ('z', 9)]), dflt, ('', 0, 'IMPLICIT')),
+                                      _m('ex', dict(NBITS, named=[('read', 0), ('write', 1), ('z', 9)]), dflt, ('', 1, 'EXPLICIT')),
+                                      _m('exr', NB, 'optional', ('', 2, 'EXPLICIT')),
+                                      _m('exi', INT, ('default', 5), ('', 3, 'EXPLICIT')),
+                                      _m('exo', OCT, ('default', b'\x00'), ('APPLICATION', 31, 'EXPLICIT'))], 'ext': None}
+    out.append((_mod('IMPLICIT', [('T0', dseq), ('T1', dict(NBITS, named=[('read', 0), ('write', 1), ('z', 9)]))]),
+                [('T0', {'i': 7}),
+                 ('T0', {'i': 7, 'u': (b'\x40', 2), 'im': (b'\x40', 2), 'ex': (b'\x40', 2), 'exi': 5, 'exo': b'\x00'}),
+                 ('T0', {'i': 7, 'u': (b'\x40', 8), 'im': (b'\x40\x00', 10), 'ex': (b'\x40', 8), 'exi': 5}),
+                 ('T0', {'i': 7, 'u': (b'\x40\x00', 16), 'im': (b'\x40', 3), 'ex': (b'\x40\x00', 9), 'exr': (b'\x40', 8)}),
+                 ('T0', {'i': 7, 'u': (b'\x60', 3), 'im': (b'\x00', 2), 'ex': (b'\xc0', 2), 'exi': 6, 'exo': b''}),
+                 ('T0', {'i': 7, 'ex': (b'\x40\x40', 10), 'exi': -5, 'exo': b'\x00\x00'})]))
+    # a DEFAULT on an explicitly tagged reference must not leak into other members of the same name and type
+    # (shared compiled type; repaired defect explicit-default-leaks-into-shared-type)
+    FREF = {'k': 'REF', 'name': 'T0'}
+    leak1 = {'k': 'SEQUENCE', 'root': [_m('a', dict(FREF), ('default', 5), ('', 0, 'EXPLICIT'))], 'ext': None}
+    leak2 = {'k': 'SEQUENCE', 'root': [_m('a', dict(FREF))], 'ext': None}
+    leak3 = {'k': 'SET', 'root': [_m('a', dict(FREF), None, ('', 1, 'EXPLICIT')), _m('b', BOOL, None, ('', 2, ''))], 'ext': None}
+    out.append((_mod('IMPLICIT', [('T0', dict(INT)), ('T1', leak1), ('T2', leak2), ('T3', leak3)]),
+                [('T1', {}), ('T1', {'a': 5}), ('T2', {'a': 5}), ('T2', {'a': 6}), ('T3', {'a': 5, 'b': True})]))
     # content lengths around the short / long form boundaries (127/128, 255/256, 65535/65536), for the
     # contents of a primitive encoding and for the contents of the enclosing constructed ones
     wrap = {'k': 'SEQUENCE', 'root': [_m('o', OCT)], 'ext': None}
@@ -492,8 +519,6 @@ def scope_problems(mod, codec):
                     out.append('finding optional-extensible-choice')
                 if k == 'SET' and untagged_choice and codec == 'ber':
                     out.append('finding ber-set-choice-member')
-                if k in ('SEQUENCE', 'SET') and m['opt'] not in (None, 'optional') and m['t']['k'] == 'REF':
-                    out.append('finding C19 default through reference')
                 if k in ('SEQUENCE', 'SET') and m['opt'] not in (None, 'optional') and rt['k'] == 'NULL':
                     out.append('NULL default')
     for _, t in mod['types']:
